@@ -6,6 +6,7 @@ package dawn
 
 import (
 	"bytes"
+	"encoding/json"
 	"crypto/sha256"
 	"encoding/hex"
 
@@ -59,4 +60,31 @@ func VerifRecord(p *Project, rawlabel string) (string, bool, bool) {
 		return "", false, false
 	}
 	return info.Data, info.Rerun, true
+}
+
+// VerifDepKeyJSON writes a record whose dependencies map has the single key `key`, and returns the key as it stands
+// in the JSON text and the key a fresh load reads back.
+func VerifDepKeyJSON(key string) (string, string, error) {
+	b, err := json.Marshal(targetInfo{Dependencies: map[string]string{key: "v"}})
+	if err != nil {
+		return "", "", err
+	}
+	var raw struct {
+		Dependencies map[string]string `json:"dependencies"`
+	}
+	if err := json.Unmarshal(b, &raw); err != nil {
+		return "", "", err
+	}
+	var back targetInfo
+	if err := json.Unmarshal(b, &back); err != nil {
+		return "", "", err
+	}
+	jk, bk := "", ""
+	for k := range raw.Dependencies {
+		jk = k
+	}
+	for k := range back.Dependencies {
+		bk = k
+	}
+	return jk, bk, nil
 }
